@@ -2,6 +2,7 @@ package main
 
 import (
 	"fmt"
+	"github.com/scionproto/scion/pkg/addr"
 	"math/rand/v2"
 	"time"
 
@@ -61,10 +62,64 @@ func checkC07(r *mon.Run) {
 		}
 	})
 	r.RequireClasses("onehop/outgoing/forwarded", "onehop/incoming/delivered")
-	r.Require(int64(nStars*per)/2, 40, "forwarded_compared", "delivered_compared", "segid_changed", "currhf_changed", "epic_compared", "foreign_alert_flag_kept")
+	r.Require(int64(nStars*per)/2, 40, "forwarded_compared", "delivered_compared", "segid_changed", "currhf_changed", "epic_compared", "foreign_alert_flag_kept", "late_discarded_before_case")
+}
+
+// c07LateDiscard lets the processor first handle a packet that passes every
+// check of the SCION header (authentic hop fields) and is discarded only
+// afterwards - a UDP packet for a local host whose UDP header is cut short, a
+// service destination without instance, a destination of another address
+// type. What the processor did for a packet it dropped must leave no trace
+// in the next packet.
+func c07LateDiscard(r *mon.Run, rng *rand.Rand, s *rfix.Star) {
+	for try := 0; try < 12; try++ {
+		sc := s.GenScenario(rng, rfix.Shape(rng.IntN(int(rfix.NumShapes))), time.Now().Unix())
+		if !sc.Deliver || sc.Arr != rfix.ArrExternal {
+			continue
+		}
+		kind := rng.IntN(3)
+		in, err := sc.Packet(rng, func(p *rfix.PktSpec) {
+			p.L4 = rfix.L4UDP
+			p.Payload = nil
+			p.HBH, p.E2E = false, false
+			switch kind {
+			case 1:
+				p.DstHost = addr.HostSVC(addr.SvcDS)
+			case 2:
+				p.L4 = rfix.L4Unknown
+			}
+		})
+		if err != nil {
+			continue
+		}
+		if kind == 0 && len(in) > 12 {
+			// cut the UDP header to 4 bytes and say so in PayloadLen
+			in = in[:len(in)-4]
+			pl := int(in[6])<<8 | int(in[7])
+			if pl < 4 {
+				continue
+			}
+			pl -= 4
+			in[6], in[7] = byte(pl>>8), byte(pl)
+		}
+		res := s.Process(in, sc.In)
+		if res.Panic != "" {
+			r.Violation("C07:panic:"+mon.PanicSite(res.Stack), "panic", witness(s, sc, "late-discard", in, &res))
+			return
+		}
+		if res.Forwarded() {
+			r.Event("late_discard_candidate_forwarded")
+		} else {
+			r.Event("late_discarded_before_case")
+		}
+		return
+	}
 }
 
 func c07Case(r *mon.Run, rng *rand.Rand, s *rfix.Star, idx int) {
+	if rng.IntN(4) == 0 {
+		c07LateDiscard(r, rng, s)
+	}
 	shape := rfix.Shape(rng.IntN(int(rfix.NumShapes)))
 	sc := s.GenScenario(rng, shape, time.Now().Unix())
 	if rng.IntN(6) == 0 {
